@@ -247,6 +247,10 @@ func (u *CopyOnWriteFs) OpenFile(name string, flag int, perm os.FileMode) (File,
 	if b {
 		return u.base.OpenFile(name, flag, perm)
 	}
+	// a directory is listed through the union of both layers, exactly as Open does
+	if isaDir, err := IsDir(u.layer, name); err == nil && isaDir {
+		return u.Open(name)
+	}
 	return u.layer.OpenFile(name, flag, perm)
 }
 
